@@ -1,6 +1,11 @@
 pub mod config;
 mod sharding;
 mod transport;
+#[cfg(all(test, ipa_verif))]
+#[allow(warnings, clippy::all, clippy::pedantic)]
+pub(crate) mod verif_h5 {
+    include!(concat!(env!("IPA_VERIF_DIR"), "/harness/h5_net.rs"));
+}
 
 pub use sharding::InMemoryShardNetwork;
 use transport::TransportConfigBuilder;
